@@ -48,7 +48,10 @@ def jobs(pid, tier, seed):
                 for k in range(reps) for i, o in enumerate(orders)]
     n = N_RANDOM[tier]
     for i in range(n):
-        out.append({"kind": "random", "seed": seed * 1000003 + i})
+        job = {"kind": "random", "seed": seed * 1000003 + i}
+        if tier == "thorough" and i % 4 == 1:
+            job["long"] = 3        # every fourth history of the thorough tier is three times as long
+        out.append(job)
     return out
 
 
@@ -279,7 +282,11 @@ def run_job(pid, job, acc):
     p = PROFILES[pid]
     if job["kind"] == "random":
         s = job["seed"]
-        hist = generate(s, **p["gen"])
+        g = dict(p["gen"])
+        if job.get("long"):
+            g["steps"] = g.get("steps", 60) * job["long"]
+            g["max_conns"] = g.get("max_conns", 6) + 3
+        hist = generate(s, **g)
         cfg = cfg_for(s, configs_for(pid))
         run_hist(acc, hist, cfg, s, "random:%d" % s, nontrivial_keys=p["keys"],
                  keep_sample=(len(acc.samples) < 1))
